@@ -85,6 +85,7 @@ class Ctx(object):
         self.workdir = os.path.join(WORK, prop, 'w%d' % wid)
         os.makedirs(self.workdir, exist_ok=True)
         self.cache = {}
+        self.findings_avoid = Findings().avoid_tags(None)
 
     def drv(self, flavour='plain', name='xvdrv', **kw):
         k = (flavour, name)
